@@ -538,6 +538,13 @@ func constructed() map[string]*spb.AFTOperation {
 			out[fmt.Sprintf("zero-member-index-wide-%d-at-%d", n, pos)] = base(&gen.Op{NI: D, Kind: gen.NHG, Act: gen.ADD, Key: "1", Hops: hops})
 		}
 	}
+	// names that are no network instance of the server but differ from one only in a way a
+	// normaliser would remove (surrounding blanks, letter case, a trailing NUL or newline)
+	for i, nm := range []string{"DEFAULT ", " DEFAULT", "default", "VRF-A ", "\tVRF-A", "VRF-A\n", "DEFAULT\x00", "VRF-a"} {
+		out[fmt.Sprintf("near-miss-ni-%d-nh", i)] = base(&gen.Op{NI: nm, Kind: gen.NH, Act: gen.ADD, Key: "1", IP: "192.0.2.1"})
+		out[fmt.Sprintf("near-miss-ni-%d-nh-delete", i)] = base(&gen.Op{NI: nm, Kind: gen.NH, Act: gen.DELETE, Key: "1", NoPayload: true})
+		out[fmt.Sprintf("near-miss-group-ni-%d-v4", i)] = base(&gen.Op{NI: D, Kind: gen.V4, Act: gen.ADD, Key: "1.0.0.0/8", Group: 1, GroupNI: nm})
+	}
 	out["empty-group-with-color"] = base(&gen.Op{NI: D, Kind: gen.NHG, Act: gen.ADD, Key: "1", Backup: gen.U(2), Color: gen.U(3)})
 	out["zero-member-index-only"] = base(&gen.Op{NI: D, Kind: gen.NHG, Act: gen.ADD, Key: "1", Hops: []gen.Hop{{Index: 0, Weight: gen.U(2)}}})
 	out["zero-member-index-replace"] = base(&gen.Op{NI: D, Kind: gen.NHG, Act: gen.REPLACE, Key: "1", Hops: []gen.Hop{{Index: 0}, {Index: 1}}})
@@ -581,6 +588,10 @@ func getFlushCases() map[string]proto.Message {
 	for _, a := range []int32{0, 7, 8, 99, -1} {
 		out[fmt.Sprintf("get:aft-%d", a)] = &spb.GetRequest{NetworkInstance: &spb.GetRequest_All{All: &spb.Empty{}}, Aft: spb.AFTType(a)}
 		out[fmt.Sprintf("get:aft-%d-named", a)] = &spb.GetRequest{NetworkInstance: &spb.GetRequest_Name{Name: "DEFAULT"}, Aft: spb.AFTType(a)}
+	}
+	for i, nm := range []string{"DEFAULT ", " DEFAULT", "default", "VRF-A ", "VRF-A\n"} {
+		out[fmt.Sprintf("get:near-miss-name-%d", i)] = &spb.GetRequest{NetworkInstance: &spb.GetRequest_Name{Name: nm}, Aft: spb.AFTType_ALL}
+		out[fmt.Sprintf("flush:near-miss-name-%d", i)] = &spb.FlushRequest{Election: &spb.FlushRequest_Override{Override: &spb.Empty{}}, NetworkInstance: &spb.FlushRequest_Name{Name: nm}}
 	}
 	out["get:nil-all"] = &spb.GetRequest{NetworkInstance: &spb.GetRequest_All{}, Aft: spb.AFTType_ALL}
 	out["flush:nil-request"] = (*spb.FlushRequest)(nil)
